@@ -49,6 +49,7 @@ IsCall(ev) == ev.op \in {"get", "put", "del", "select", "transfer"}
 (* R3: the property does not say whether an inverted range is an error or an empty scan *)
 ResOk(exp, act) == exp = act \/ (exp = "err" /\ act = "ok")
 UIn == [j \in 1..un' |-> UAmt]
+BagEq(s, t) == Len(s) = Len(t) /\ \A i \in 1..Len(s) : Cardinality({j \in 1..Len(s) : s[j] = s[i]}) = Cardinality({j \in 1..Len(t) : t[j] = s[i]})
 
 (* (a) + (b) for a call line *)
 CallOk(ev) == /\ ResOk(LastEv.res, ev.res) /\ LastEv.items = ev.items
@@ -61,8 +62,9 @@ ReplayOk(ev) == mode' = "rs" => (nops' <= Len(prev) /\ (Agrees(ev) \/ Excused(ev
 (* the final line of a run: read / write set after Flush, utxo sets, transient utxo records decoded *)
 FinOk(ev) == /\ RSetOkX(bk', req', out', mode', ev.rset)
              /\ ev.wset = WSetSeq(out')
-             /\ ev.uin = UIn /\ ev.uout = uout'
+             /\ ev.uin = UIn /\ BagEq(ev.uout, uout')      \* the order of the utxo outputs is not the property's business ...
              /\ ev.tuin = ev.uin /\ ev.tuout = ev.uout      \* Flush wrote exactly the utxo sets into the transient bucket
+             \* ... but the replay has to reproduce it exactly (it is part of the write set)
              /\ mode' = "rs" => (ev.wset = fin1.wset /\ ev.uout = fin1.uout /\ ev.uin = fin1.uin /\ nops' = Len(prev))
 (* the verification environment could be built from the declared sets (State.GenRWSetFromTx accepted the *)
 (* versions) and holds the read set of the first run, each record as the backing state has it          *)
@@ -88,12 +90,23 @@ TStep ==
      /\ div' = IF Good(ev) THEN NoDiv
                ELSE [at |-> l, tr |-> ev.tr, op |-> ev.op,
                      expres |-> IF IsCall(ev) THEN LastEv.res ELSE "ok", actres |-> ev.res,
-                     exp |-> [items |-> IF IsCall(ev) THEN LastEv.items ELSE <<>>, req |-> KeySeq(req'), wset |-> WSetSeq(out'),
-                              uin |-> UIn, uout |-> uout', mode |-> mode',
+                     exp |-> [items |-> IF IsCall(ev) THEN LastEv.items ELSE <<>>, wset |-> WSetSeq(out'),
+                              rset_must_include |-> KeySeq(req'), mode |-> mode',
+                              utxo |-> IF ev.op = "rwset" THEN [uin |-> UIn, uout |-> uout'] ELSE [uin |-> <<>>, uout |-> <<>>],
                               first_run |-> IF IsCall(ev) /\ mode' = "rs" /\ nops' <= Len(prev)
                                             THEN [res |-> prev[nops'].res, items |-> prev[nops'].items]
+                                            ELSE IF ev.op = "rwset" /\ mode' = "rs" THEN [res |-> "ok", items |-> <<>>, wset |-> fin1.wset, uout |-> fin1.uout]
                                             ELSE [res |-> "", items |-> <<>>]],
-                     act |-> ev]
+                     act |-> [mode |-> mode',
+                              first_run |-> IF IsCall(ev) /\ mode' = "rs" /\ nops' <= Len(prev)
+                                            THEN [res |-> prev[nops'].res, items |-> prev[nops'].items]
+                                            ELSE IF ev.op = "rwset" /\ mode' = "rs" THEN [res |-> "ok", items |-> <<>>, wset |-> fin1.wset, uout |-> fin1.uout]
+                                            ELSE [res |-> "", items |-> <<>>],
+                              items |-> IF IsCall(ev) THEN ev.items ELSE <<>>,
+                              wset |-> IF IsCall(ev) THEN ev.obs.wset ELSE IF ev.op = "rwset" THEN ev.wset ELSE <<>>,
+                              rset |-> IF IsCall(ev) THEN ev.obs.rset ELSE IF ev.op \in {"rwset", "replay"} THEN ev.rset ELSE <<>>,
+                              utxo |-> IF ev.op = "rwset" THEN [uin |-> ev.uin, uout |-> ev.uout, tuin |-> ev.tuin, tuout |-> ev.tuout]
+                                       ELSE [uin |-> <<>>, uout |-> <<>>]]]
   /\ l' = l + 1
 TSpec == TInit /\ [][TStep]_tvars
 
